@@ -8,4 +8,5 @@ CONSTANTS
   FixD12 = TRUE
   FixD17 = FALSE
   FixD18 = TRUE
+  FixD20 = TRUE
 INVARIANT C06_AllExitedAfterJoin
